@@ -4,11 +4,12 @@
 set -e
 P="$1"
 V=/verif
-D=$V/build/ml/$P
-mkdir -p "$D" $V/build/bin
+B=${VERIF_BUILD:-$V/build}
+D=$B/ml/$P
+mkdir -p "$D" $B/bin
 cd "$D"
 cp $V/coq/extract/$P/Extract.v Extract.v
 coqc -Q $V/coq/theories MTV -Q $V/coq/gen MTVgen Extract.v >/dev/null
 { echo "open Model"; cat $V/coq/extract/common/mtvio.ml $V/coq/extract/$P/driver.ml; } > main.ml
 rm -f model.mli
-ocamlfind ocamlopt -O3 -w -a -o $V/build/bin/model_$P model.ml main.ml 2>/dev/null || ocamlfind ocamlopt -w -a -o $V/build/bin/model_$P model.ml main.ml
+ocamlfind ocamlopt -O3 -w -a -o $B/bin/model_$P model.ml main.ml 2>/dev/null || ocamlfind ocamlopt -w -a -o $B/bin/model_$P model.ml main.ml
